@@ -63,6 +63,8 @@ def c18(run):
     r_holder.run(run, P, set(A.spec.creators) | set(Apdu.spec.creators))
     from rules import r_uaf
     r_uaf.run(run, P)
+    from rules import r_realloc
+    r_realloc.run(run, P)
     run.assumptions = ASSUME_COMMON + ["every allocation funnels through coap_malloc_type/coap_realloc_type/malloc/calloc/realloc/strdup",
                                        "'the next operation succeeds' is NOT decided"]
     return run.finish(
@@ -177,6 +179,7 @@ def c05(run):
     r_stream.run_phase(run, P)
     r_stream.run_cursor(run, P)
     r_stream.run_cap(run, P)
+    r_stream.run_cap_own(run, P)
     run.min_instances('R-STREAM-ADV', 4)
     run.min_instances('R-STREAM-CAP', 4)
     run.assumptions = ASSUME_COMMON + ["equality of the delivered message sequence over all segmentations is NOT decided (needs a relational domain); "
@@ -391,6 +394,7 @@ def c02(run):
     r_range.run_cbor_reader(run, P)
     r_shift.run(run, P, units=('oscore.c', 'oscore_cbor.c'))
     r_stream.run_cap(run, P)
+    r_stream.run_cap_own(run, P)
     r_stream.run_adv(run, P)
     r_stream.run_phase(run, P)
     r_stream.run_cursor(run, P)
